@@ -1085,10 +1085,16 @@ type BraceExp struct {
 }
 
 func (b *BraceExp) Pos() Pos {
+	if len(b.Elems) == 0 || len(b.Elems[0].Parts) == 0 {
+		return Pos{} // e.g. "{,a}" has an empty first element
+	}
 	return posAddCol(b.Elems[0].Pos(), -1)
 }
 
 func (b *BraceExp) End() Pos {
+	if len(b.Elems) == 0 || len(b.Elems[len(b.Elems)-1].Parts) == 0 {
+		return Pos{} // e.g. "{a,}" has an empty last element
+	}
 	return posAddCol(wordLastEnd(b.Elems), 1)
 }
 
